@@ -145,6 +145,14 @@ func c18Inputs(c *Ctx, nMut int) []c18Case {
 	for _, s := range stateProbes {
 		cases = append(cases, c18Case{"split", s}, c18Case{"statements", s}, c18Case{"expr", s})
 	}
+	for _, ll := range gen.LongLiterals() {
+		if len(ll.Text) < 20000 {
+			cases = append(cases, c18Case{ll.Entry, ll.Text})
+		}
+	}
+	for _, fam := range gen.WideFamilies {
+		cases = append(cases, c18Case{fam.Entry, fam.Make(2000)})
+	}
 	r := gen.NewRand(c.Seed, 1800) // NOT shard dependent
 	cs := c.Corpus()
 	for i := 0; i < nMut; i++ {
